@@ -432,7 +432,14 @@ def cycseed(repo, res, rule="CYCSEED"):
         return False
     envs = A.collect_envs(fn)
     pm = A.parent_map(fn.body)
-    calls = list(P.find_calls(fn.body, names={"traverse_nonterminal_dependencies_dfs"}))
+    dfs = repo.fn("check::traverse_nonterminal_dependencies_dfs")
+    # start-up helpers extracted from the seeding loops count as starts of the DFS
+    starters = {"traverse_nonterminal_dependencies_dfs": dfs}
+    if dfs is not None:
+        for w in repo.fns_in("check"):
+            if w is not dfs and w is not fn and list(P.find_calls(w.body, names={dfs.name})):
+                starters[w.name] = w
+    calls = list(P.find_calls(fn.body, names=set(starters)))
     seeded_all = False
     details = []
     for c in calls:
@@ -451,7 +458,7 @@ def cycseed(repo, res, rule="CYCSEED"):
             gs = [g for g in A.guards_of(c, pm, stop=lp) if g[0]["k"] == "If"]
             pg = [x for x in A.preceding_guards(c, pm) if A.before(lp, x[2])]
             # the visited set is whatever this call passes for the callee's `&mut UstrSet` parameter (names are not assumed)
-            callee = repo.fn("check::traverse_nonterminal_dependencies_dfs")
+            callee = starters.get(c["func"]["path"].split("::")[-1]) if c["func"]["k"] == "Path" else dfs
             vis = "visited"
             if callee is not None:
                 for pi, prm in enumerate(callee.params):
